@@ -114,6 +114,7 @@ def match_rows(out, inp):
 
 def pred_coarsen(ctx, viol, raw, err, out, origin):
     ctx.count('pred:coarsen')
+    ctx.evaluations += int(raw.shape[0])          # every row is judged (kept / dropped-within-err)
     small = {'function': 'ambient.coarsen', 'err': err, 'shape': list(raw.shape), 'origin': origin}
     full = lambda: {'raw': tab(raw), 'returned': tab(out)}
     idx = match_rows(out, raw)
@@ -148,6 +149,7 @@ def pred_coarsen(ctx, viol, raw, err, out, origin):
 
 def pred_stabilize(ctx, viol, raw, out, origin):
     ctx.count('pred:stabilize')
+    ctx.evaluations += int(raw.shape[0])
     small = {'function': 'ambient.stabilize', 'shape': list(raw.shape), 'origin': origin}
     full = lambda: {'raw': tab(raw), 'returned': tab(out)}
     idx = match_rows(out, raw)
@@ -187,6 +189,7 @@ def phys_order(z, T, S, P, combo):
 def pred_pressure(ctx, viol, z, T, S, fs, combo, P, raised, origin):
     from tamoc import seawater
     ctx.count('pred:pressure:' + combo)
+    ctx.evaluations += len(z)
     small = {'function': 'ambient.compute_pressure', 'convention': combo, 'fs_loc': fs, 'levels': len(z), 'origin': origin}
     full = lambda: {'z': tab(z), 'T': tab(T), 'S': tab(S), 'returned': None if P is None else tab(P)}
     key = {'pos-desc': 'pressure-bottom-first', 'neg-desc': 'pressure-negative-surface-first'}.get(combo, 'pressure-not-hydrostatic')
